@@ -3,41 +3,105 @@
 Tie: random fluent programs are run on the REAL earthkit.workflows.fluent; every resulting
 `Action.graph()` is unfolded into one expression per coordinate and compared STRUCTURALLY (no
 floats) with the expressions of Model/Fluent.lean, together with dims / coordinates / scalar
-coordinates, statement by statement.
-Oracle (independent of the model): a small interpreter evaluates the real graph on exact
-Fraction arrays (floats only when the program contains std) and the result is compared with the
-same operation applied directly with NumPy to the stacked source arrays; dims/coords as documented.
+coordinates (labels compared without merging 1.0 with 1; the keep_dim label included), statement by statement.
+Oracle (independent of the model): a small interpreter evaluates the real graph — on exact Fraction arrays, on
+floats when the program contains std, on xarray DataArrays in 30% of the programs (the other backend) — and the
+result is compared with the same operation applied directly with NumPy to the stacked source arrays; dims/coords as
+documented. A statement has no reference value only for a stated reason (counted per reason in the evidence); an
+exception inside the reference itself is a broken check, never "no reference".
+Translator: which backend functions carry @batchable is read from backends/__init__.py (Gen/FluentMarks.lean).
 """
 import glob
 import json
 
 PROPERTY = "C13"
-LEVEL_TEXT = ("Lean theorems over Model/Fluent.lean (node arrays as dims + position -> unfolded expression): a non-batched reduce "
-              "has the documented dims and evaluates, under every interpretation of the payload functions, to the payload applied to the "
-              "values along the dimension in coordinate order; for every batchable payload, every batch size and every dimension size the "
-              "iterated batching of reduce/_batch_transform terminates (batch_size >= 2) and changes neither dims nor any value; the batched "
-              "mean is sum/n over exact rationals and the batched std is pow(.,1/2) of the population variance; shape and value theorems for "
-              "map (+yields), select/iselect, broadcast, join, arithmetic between actions, stack/concatenate. Unbounded in array shape, dimension size and batch size; tied to the real "
-              "fluent API by a structural correspondence check on unfolded graphs.")
-LEVEL_NOTE = ("modelled, not verified: fluent.py Action.{map,reduce,sum..std,stack,concatenate,flatten,select,iselect,expand,transform,"
-              "broadcast,join,add..power}, Node.__init__ argument insertion, _batch_transform, _expand_transform, _combine_nodes, from_source; "
-              "xarray's own dims/coords bookkeeping is mirrored by hand for the cases the generator reaches (others are reported as out of "
-              "scope and counted); float rounding is outside (exact Fractions; tolerance only for programs containing std, stated in the evidence); batchability "
-              "of backend functions is a hypothesis here (C15 proves it per function); reductions over a dimension of size 1 are outside the "
-              "property's quantifier (a backend function applied to one array reduces the array itself)")
-TECHNIQUE = "Lean 4 proof by induction on the batching recursion over an executable model + structural differential correspondence of unfolded graphs + NumPy oracle"
-LEAN_PROPS = ["EkwVerif.Props.C13"]
+LEVEL_TEXT = ("Lean theorems over Model/Fluent.lean (node arrays as dims + position -> unfolded expression). c13_denotation: an independent "
+              "DENOTATION of fluent programs (Prog.den: a value at every coordinate, computed by value-level operations in which batching, the "
+              "mean/std rewrites, the join-then-reduce encoding of arithmetic and the loop of transform do not occur) and the theorem, by induction "
+              "over programs built from map (one payload or an array of payloads, yields), reduce and the named reductions, mean/std, "
+              "stack/concatenate/flatten, select/iselect (values, lists, several criteria), expand (index, name or Coord, backend kwargs), "
+              "broadcast (exclude), join (existing/new dimension, different dimensions, match_coord_values), arithmetic with numbers and between "
+              "actions of equal or different dimensions, transform (function given as a program over the receiver): if the construction succeeds, "
+              "the node array has exactly the dims / coordinate labels / scalar coordinates of the denotation and the node at EVERY position evaluates "
+              "to the denotation's value — for every interpretation of the payload functions satisfying three laws (trivial = identity, mean = sum/n, "
+              "std = pow(sum(x^2)/n - (sum(x)/n)^2, 1/2)), proved of the exact rational interpretation with unknown functions as an explicit opaque symbol "
+              "(c13_laws_rat); c13_batch_invariant_prog: a program and the same program with all batch sizes 0 have the same dims/coords and the same value "
+              "at every position; c13_batch_invariant / c13_batch_terminates for one reduce of any size; direct statements for the derived operations "
+              "(c13_value_transform: position i along the new dimension IS the function's result for parameter i; c13_value_expand, _flatten, "
+              "_select_many, _join_match, _arith, _combine). Unbounded in array shape, dimension size, batch size and program depth; tied to the real fluent "
+              "API by a structural correspondence check on unfolded graphs. The clauses 'map / iselect / broadcast / join put node k at position k' are "
+              "definitional in the model (c13_value_map, _iselect, _broadcast, _join_existing restate them) and are carried by the tie.")
+LEVEL_NOTE = ("modelled, not verified: fluent.py Action.{map (payload or array of payloads),reduce,sum..std,stack,concatenate,flatten,select/sel,iselect/isel,expand,"
+              "transform,broadcast(exclude),join,add..power}, Node.__init__ argument insertion, _batch_transform, _expand_transform, _combine_nodes, "
+              "_squeeze_dimension, from_source, RegisteredAction (driven through the wrapper; it only casts); which backend functions carry @batchable is "
+              "read from backends/__init__.py on every run (Gen/FluentMarks.lean); xarray's own dims/coords bookkeeping (xr.concat, broadcast_like, sel) is "
+              "mirrored by hand for the cases the generator reaches (others are reported as out of scope and counted); float rounding is outside (exact "
+              "Fractions; tolerance only for programs containing std or running on xarray DataArrays, stated in the evidence); batchability of the payload "
+              "FUNCTIONS is a hypothesis (Batchable; C15 proves it per backend function); reductions over a dimension of size 1 are outside the property's "
+              "quantifier; mixed value types within one program (backend dispatch looks at the first argument only) are outside")
+TECHNIQUE = "Lean 4 proof (denotational semantics of programs, induction over programs and over the batching recursion) over an executable model + structural differential correspondence of unfolded graphs + NumPy oracle on both backends"
+LEAN_PROPS = ["EkwVerif.Props.C13", "EkwVerif.Props.C13Den"]
 LEAN_DRIVERS = ["C13"]
-RULE = ("random fluent programs: 1-3 sources (1-3 dims, sizes 1-5, int/str labels), chains of depth <= 4 (thorough <= 6) over named "
-        "reductions (batch sizes 0..size+2, with/without keep_dim, backend kwargs), custom reduce/map payloads incl. generators (yields), "
-        "stack/concatenate/flatten, select/iselect (value, list, drop), expand, transform, broadcast, join (new/existing/Coord dim, "
-        "match_coord_values), arithmetic with scalars and actions; ~8% deliberately invalid arguments. non-trivial = program with >= 1 "
+RULE = ("random fluent programs: 1-3 sources (1-3 dims, sizes 1-7, int/str labels), internal shapes scalar..3-D, values exact Fractions or (30%) xarray "
+        "DataArrays with named internal dims (xarray backend); chains of depth <= 4 (thorough <= 6) over named reductions (batch sizes 0..size+2, "
+        "remainder-of-one batches, keep_dim, backend kwargs), custom reduce/map payloads incl. generators, map with an ndarray / nested list of payloads, "
+        "stack/concatenate/flatten (negative axes, backend kwargs), select/iselect/sel/isel (value, list, several criteria, dict / kwargs / mixed), expand "
+        "(index, negative index, name, Coord by position or label, backend kwargs, missing dim_size), transform, broadcast (exclude), join (new/existing/"
+        "Coord dim, operands of different dims, match_coord_values), arithmetic with scalars and between actions of equal / different dims "
+        "(x - x.mean(d), keep_dim), dimensions without coordinate (join on a new name) followed by batched reductions / single-element stack / keep_dim, "
+        "8% of the statements through a.default.<op> / a.<registered subclass>.<op>; ~8% deliberately invalid arguments. non-trivial = program with >= 1 "
         "statement that succeeds and is not a source; distinct by content hash")
 ASSUMPTIONS = [
-    "source payloads are functools.partial(srcfn, id); the interpreter supplies their values (exact Fractions, nonzero)",
-    "coordinate labels produced by keep_dim are compared as opaque (the docstring promises the dimension and its position only)",
-    "IsBatchable of a payload function is a hypothesis of c13_batch_invariant (discharged per backend function by C15)",
+    "source payloads are functools.partial(srcfn, id); the interpreter supplies their values: every element of every source distinct, 32 random low bits (a mis-wired node is seen)",
+    "the label keep_dim gives the kept dimension is undocumented: the oracle does not judge it, the tie compares it (first and last label of the reduced dimension, read back from the text the code builds)",
+    "Batchable: a payload marked batchable denotes a batchable function (hypothesis of c13_denotation / c13_batch_invariant*; discharged per backend function by C15)",
+    "programs introduce no dimension named batch.<n>.<x> or **datatype** (names the implementation reserves; hypothesis Prog.WF)",
 ]
+
+
+def read_fluent_marks(repo):
+    """(batchable, not batchable) function names of class Backend in backends/__init__.py, in source order"""
+    import ast
+    src = (repo / "src" / "earthkit" / "workflows" / "backends" / "__init__.py").read_text()
+    yes, no = [], []
+    for node in ast.parse(src).body:
+        if isinstance(node, ast.ClassDef) and node.name == "Backend":
+            for f in node.body:
+                if isinstance(f, ast.FunctionDef):
+                    marked = any((isinstance(d, ast.Name) and d.id == "batchable") or (isinstance(d, ast.Attribute) and d.attr == "batchable")
+                                 for d in f.decorator_list)
+                    (yes if marked else no).append(f.name)
+    return yes, no
+
+
+def render_fluent_marks(yes, no):
+    q = lambda l: "[" + ", ".join('"%s"' % x for x in l) + "]"  # noqa: E731
+    return (
+        "-- GENERATED by harness/ekw/props/c13.py (translator `fluent_marks`) from\n"
+        "-- src/earthkit/workflows/backends/__init__.py -- do not edit.\n"
+        "namespace EkwVerif.Gen\n\n"
+        "/-- the functions of class `Backend` that carry `@batchable`, in source order (what `Action.reduce` reads as\n"
+        "`getattr(payload.func, \"batchable\", False)`) -/\n"
+        "def fluentBatchable : List String := " + q(yes) + "\n\n"
+        "/-- the other functions of class `Backend` -/\n"
+        "def fluentNotBatchable : List String := " + q(no) + "\n\n"
+        "end EkwVerif.Gen\n")
+
+
+def translate(ctx):
+    """Gen/FluentMarks.lean: which backend functions carry @batchable (Model/Fluent.lean `isBatchableName` reads it)"""
+    from ekw.core import LEAN_DIR, REPO
+    yes, no = read_fluent_marks(REPO)
+    text = render_fluent_marks(yes, no)
+    out = LEAN_DIR / "EkwVerif" / "Gen" / "FluentMarks.lean"
+    if not out.exists() or out.read_text() != text:
+        out.write_text(text)
+    ctx.extra["fluent_batchable"] = yes
+    # the marks as the running code has them (cross-check of the translator against the imported module)
+    from earthkit.workflows import backends
+    live = [n for n in yes + no if getattr(getattr(backends, n), "batchable", False)]
+    if live != yes:
+        ctx.disagree("fluent-marks-translator", {"source": yes}, yes, live)
 
 
 def _known_witnesses():
@@ -57,7 +121,57 @@ def _known_witnesses():
         {"stmts": [S, {"op": "source", "dims": [["d0", [0, 10, 20]]], "base": 3},
                    {"op": "join", "a": 0, "b": 1, "dim": "d0", "match": False},
                    {"op": "named", "a": 2, "name": "sum", "dim": "d0", "bs": 2, "keep": False, "kw": []}], "internal": [], "vseed": 1, "float": False},
-    ]
+    ] + _directed()
+
+
+def _directed():
+    """deterministic programs for the corners the audit named (run first on every check, whatever the seed)"""
+    S2 = {"op": "source", "dims": [["d0", [0, 10, 20]], ["d1", ["a", "b"]]], "base": 0}
+    T2 = {"op": "source", "dims": [["d1", ["a", "b"]], ["x", [1, 2]]], "base": 6}
+    out = []
+    # arithmetic between actions of different dimensions: x - x.mean(d), the same with keep_dim (refused), a partly overlapping operand
+    for keep in (False, True):
+        out.append({"stmts": [S2, {"op": "named", "a": 0, "name": "mean", "dim": "d0", "bs": 0, "keep": keep, "kw": []},
+                              {"op": "arith", "a": 0, "fn": "subtract", "b": 1}, {"op": "arith", "a": 1, "fn": "subtract", "b": 0}],
+                    "internal": [3], "vseed": 2, "float": False})
+    out.append({"stmts": [S2, T2, {"op": "arith", "a": 0, "fn": "divide", "b": 1}, {"op": "join", "a": 0, "b": 1, "dim": "w", "match": False}],
+                "internal": [2, 2], "vseed": 3, "float": False})
+    # map with an array of payloads (transposition would show: 3 x 2 nodes, every node its own constant)
+    for how in ("ndarray", "list"):
+        out.append({"stmts": [S2, {"op": "mapn", "a": 0, "shape": [3, 2], "ks": [2, 3, 5, 7, 11, 13], "as": how}], "internal": [3], "vseed": 4, "float": False})
+    # … and a SQUARE node array, where a transposed index is silent
+    out.append({"stmts": [{"op": "source", "dims": [["d0", [0, 10, 20]], ["d1", ["a", "b", "c"]]], "base": 0},
+                          {"op": "mapn", "a": 0, "shape": [3, 3], "ks": [2, 3, 5, 7, 11, 13, 17, 19, 23], "as": "ndarray"},
+                          {"op": "mapn", "a": 0, "shape": [3, 3], "ks": [29, 31, 37, 41, 43, 47, 53, 59, 61], "as": "list", "reg": "default"}],
+                "internal": [2], "vseed": 4, "float": False})
+    # broadcast with exclude
+    out.append({"stmts": [S2, {"op": "source", "dims": [["d1", ["p", "q", "r"]], ["g", [1, 2]]], "base": 6},
+                          {"op": "broadcast", "a": 0, "b": 1, "exclude": ["d1"]}, {"op": "broadcast", "a": 0, "b": 1}],
+                "internal": [], "vseed": 5, "float": False})
+    # select: several criteria, keyword arguments, aliases
+    for via in ("dict", "kwargs", "mixed"):
+        out.append({"stmts": [S2, {"op": "selectn", "a": 0, "how": "select", "crit": [["d0", "vals", [20, 0]], ["d1", "val", "b"]], "drop": False, "via": via, "alias": via != "dict"},
+                              {"op": "selectn", "a": 0, "how": "iselect", "crit": [["d1", "val", 1], ["d0", "vals", [2, 2, 0]]], "drop": True, "via": via, "alias": via == "mixed"}],
+                    "internal": [2], "vseed": 6, "float": False})
+    # expand on a non-square internal array: negative axis; on DataArrays: by name, by Coord (positions / labels), with the registered wrapper
+    out.append({"stmts": [S2, {"op": "expand", "a": 0, "dim": "e", "internal": -1, "size": 3, "axis": 1},
+                          {"op": "expand", "a": 0, "dim": ["f", ["u", "v"]], "internal": -2, "size": 2, "axis": 0}], "internal": [2, 3], "vseed": 7, "float": False})
+    out.append({"stmts": [S2, {"op": "expand", "a": 0, "dim": "e", "internal": "i1", "size": 3, "axis": 2},
+                          {"op": "expand", "a": 0, "dim": "f", "icoord": ["i1", [2, 0]], "axis": 0},
+                          {"op": "expand", "a": 0, "dim": ["g", ["u", "v"]], "icoord": ["i0", [101, 100]], "kw": [["method", "sel"]], "axis": 1, "reg": "c13sub"}],
+                "internal": [2, 3], "vseed": 8, "float": False, "xr": True})
+    # stack / flatten with a negative axis on both backends, concatenate along the second internal axis
+    for xr in (False, True):
+        kw = (lambda nm: {"kw": [["dim", nm]]}) if xr else (lambda nm: {})
+        out.append(dict({"stmts": [S2, dict({"op": "stack", "a": 0, "dim": "d0", "bs": 0, "keep": False, "axis": -1}, **kw("s1")),
+                                   dict({"op": "flatten", "a": 0, "dim": "d1", "axis": -2}, **kw("s2")),
+                                   dict({"op": "concatenate", "a": 0, "dim": "d0", "bs": 2, "keep": True}, **({"kw": [["dim", "i1"]]} if xr else {"kw": [["axis", 1]]}))],
+                         "internal": [2, 3], "vseed": 9, "float": False}, **({"xr": True} if xr else {})))
+    # keep_dim on labelled / unlabelled dimensions (the tie compares the label the code builds)
+    out.append({"stmts": [S2, {"op": "source", "dims": [["d0", [0, 10, 20]], ["d1", ["a", "b"]]], "base": 6}, {"op": "join", "a": 0, "b": 1, "dim": "z", "match": False},
+                          {"op": "named", "a": 2, "name": "sum", "dim": "z", "bs": 0, "keep": True, "kw": []},
+                          {"op": "named", "a": 0, "name": "max", "dim": "d1", "bs": 0, "keep": True, "kw": []}], "internal": [], "vseed": 10, "float": False})
+    return out
 
 
 def _signature(kind, st):
@@ -108,11 +222,26 @@ def check_program(prog):
     refs = F.run_ref(prog, real)
     interp = F.Interp(prog)
     out = []
+    tainted = set()
     for k, (r, rf) in enumerate(zip(real, refs)):
+        if any(o in tainted for o in F.operands(prog["stmts"][k])):
+            # float programs only: an operand holds a nan the tolerance accepted (sqrt of a difference that cancels to -eps
+            # where the true variance is 0); what is computed FROM a nan is float rounding too, not judged
+            tainted.add(k)
+            refs[k] = None
+            refs.why[k] = "computed from a value that holds an accepted float nan"
+            continue
         v = F.oracle_stmt(prog, k, r, rf, interp, F.float_scale(prog, k, refs))
         if v:
             out.append((k, v[0], v[1]))
+        elif (prog.get("float") or prog.get("xr")) and rf is not None and not isinstance(r, tuple) and F.has_nan(interp, r):
+            tainted.add(k)
     return real, refs, out
+
+
+def _why_class(text):
+    """the reason a statement has no reference value, as a short counter key"""
+    return text.split(":")[0][:60].replace(" ", "_")
 
 
 def compare_model(ctx, progs, reals):
@@ -126,7 +255,7 @@ def compare_model(ctx, progs, reals):
         oos = set()
         ctx.traces += 1
         for k, (st, r, m) in enumerate(zip(p["stmts"], real, model)):
-            c = F.canon_result(r, unf)
+            c = F.canon_result(r, unf, strict=True)
             if m.get("err") == "outOfScope" or (m.get("skip") and any(o in oos for o in F.operands(st))):
                 oos.add(k)
                 ctx.count("model_out_of_scope")
@@ -135,7 +264,7 @@ def compare_model(ctx, progs, reals):
             if c != m:
                 keys = [key for key in ("dims", "scalars", "exprs", "err", "skip") if c.get(key) != m.get(key)]
                 brief = lambda d: {key: (str(d.get(key))[:400]) for key in keys}  # noqa: E731
-                ctx.disagree("fluent-statement", {"stmts": p["stmts"][:k + 1], "internal": p["internal"], "differs_in": keys}, brief(m), brief(c))
+                ctx.disagree("fluent-statement", {"stmts": p["stmts"][:k + 1], "internal": p["internal"], "xr": bool(p.get("xr")), "differs_in": keys}, brief(m), brief(c))
                 break
 
 
@@ -148,11 +277,20 @@ def correspond(ctx):
     for f in sorted(glob.glob(str(CORPUS_DIR / "C13_*.json"))):
         progs.append(json.load(open(f))["prog"])
     for _ in range(n):
-        progs.append(F.gen_program(ctx.rng, max_ops=max_ops))
+        progs.append(F.gen_program(ctx.rng, max_ops=max_ops, max_pos=48, ext=True))
     reals = []
     for p in progs:
         real, refs, viol = check_program(p)
         reals.append(real)
+        for k, text in refs.crashed:
+            # a bug of the REFERENCE is never "no reference value": the oracle was off for this statement
+            ctx.count("reference_crashed")
+            ctx.disagree("oracle-reference-crashed", {"stmts": p["stmts"][:k + 1], "internal": p["internal"], "xr": bool(p.get("xr"))},
+                         "a reference value or RefUndefined", text)
+        for k, why in refs.why.items():
+            if not (isinstance(real[k], tuple) and real[k][0] == "skip"):
+                ctx.count("unjudged:" + _why_class(why))
+        _count_features(ctx, p, real, refs)
         nontrivial = any(not isinstance(r, tuple) and st["op"] != "source" for st, r in zip(p["stmts"], real))
         ctx.case({"stmts": p["stmts"][:8], "internal": p["internal"]}, nontrivial=nontrivial)
         ctx.count("programs")
@@ -189,6 +327,48 @@ def correspond(ctx):
     ctx.extra["tolerance"] = "exact Fractions; only programs containing std run on floats: rtol 1e-7, atol 1e-6 x magnitude of the operand, and nan accepted where NumPy gives |std| <= 1e-4 x magnitude (cancellation in the rewrite: float rounding is outside the property)"
 
 
+def _count_features(ctx, p, real, refs):
+    """distribution of the extended vocabulary, and how much of it the oracle judges"""
+    if p.get("xr"):
+        ctx.count("programs_xarray_values")
+    ctx.count("internal_shape:" + "x".join(map(str, p["internal"])) if p["internal"] else "internal_shape:scalar")
+    for k, st in enumerate(p["stmts"]):
+        op = st["op"]
+        f = []
+        if "reg" in st:
+            f.append("registered:" + st["reg"])
+        if op == "expand":
+            f.append("expand:" + ("coord" if "icoord" in st else type(st["internal"]).__name__) + ("+kw" if st.get("kw") else ""))
+        if op == "broadcast" and "exclude" in st:
+            f.append("broadcast:exclude")
+        if op in ("arith", "join") and "b" in st and not isinstance(real[st["a"]], tuple) and not isinstance(real[st["b"]], tuple):
+            nm = st.get("dim")
+            nm = nm if isinstance(nm, str) else (nm[0] if nm else None)
+            da = {str(x) for x in real[st["a"]].nodes.dims} - {nm}
+            db = {str(x) for x in real[st["b"]].nodes.dims} - {nm}
+            f.append(op + (":same-dims" if da == db else ":different-dims"))
+        if op in ("stack", "flatten") and st.get("axis", 0) < 0:
+            f.append(op + ":negative-axis")
+        if op in ("stack", "flatten", "concatenate") and st.get("kw"):
+            f.append(op + ":backend-kwargs")
+        if op == "selectn":
+            f.append("selectn:%s%s" % (st["via"], ":alias" if st.get("alias") else ""))
+        if op == "mapn":
+            f.append("mapn:" + st.get("as", "ndarray"))
+        if op == "named" and st.get("keep"):
+            f.append("keep_dim")
+        if not isinstance(real[k], tuple):
+            for d in real[k].nodes.dims:
+                if d not in real[k].nodes.coords and real[k].nodes.sizes[d] >= 1:
+                    f.append("has-dimension-without-coordinate")
+                    break
+        judged = refs[k] is not None and not isinstance(real[k], tuple)
+        for x in f:
+            ctx.count("feature:" + x)
+            if judged:
+                ctx.count("feature-judged:" + x)
+
+
 def _depth(p):
     d = {}
     from ekw import c13_fluent as F
@@ -205,9 +385,10 @@ def search(ctx, why):
         c = dgr.get("case", {})
         if "stmts" in c:
             for vs in range(3):
-                progs.append({"stmts": c["stmts"], "internal": c.get("internal", [3]), "vseed": vs, "float": any(s.get("name") == "std" for s in c["stmts"])})
+                progs.append(dict({"stmts": c["stmts"], "internal": c.get("internal", [3]), "vseed": vs,
+                                   "float": any(s.get("name") == "std" for s in c["stmts"])}, **({"xr": True} if c.get("xr") else {})))
     for _ in range(ctx.budget(600, 3000)):
-        progs.append(F.gen_program(ctx.rng, max_ops=5))
+        progs.append(F.gen_program(ctx.rng, max_ops=5, max_pos=48, ext=True))
     for p in progs:
         try:
             _, _, viol = check_program(p)
